@@ -459,9 +459,9 @@ fn width_faults(seed: u16, buf: &[u8], out: &mut Vec<gens::Fault>) {
 fn npy_header_box(thorough: bool) -> Vec<Item> {
     let descrs = ["<i4", "|b1", ">f8", "<u2", "=i8", "|u1", "<f2", "<i3", "<U4", "", "<", "<i", "<i99999999999999999999", "\u{e9}4", "<\u{e9}4", "<f4 "];
     let dims: Vec<&str> = if thorough {
-        vec!["0", "1", "2", "3", "65536", "4294967295", "4294967296", "9223372036854775808", "18446744073709551615", "18446744073709551616"]
+        vec!["0", "1", "2", "3", "65536", "2147483648", "4294967295", "4294967296", "9223372036854775808", "18446744073709551615", "18446744073709551616"]
     } else {
-        vec!["0", "1", "2", "3", "65536", "4294967296", "9223372036854775808", "18446744073709551615"]
+        vec!["0", "1", "2", "3", "65536", "2147483648", "4294967296", "9223372036854775808", "18446744073709551615"]
     };
     let mut shapes: Vec<Vec<&str>> = vec![vec![]];
     for r in 1..=3 {
